@@ -118,10 +118,10 @@ Effect(op, i, ls, n) ==
 
 Do(op, i, ls, n) ==
   /\ InDomain(op, i, n)
-  /\ LET e == Effect(op, i, ls, n) IN
-     /\ content' = e.pc /\ plog' = e.pl /\ secs' = e.a.secs
-     /\ term' = ApplyOps(term, e.a.ops)
-     /\ last' = Event(op, i, ls, n, e.a.ops)
+  /\ \E e \in {Effect(op, i, ls, n)} :                      \* (a singleton: evaluated once, then bound)
+       /\ content' = e.pc /\ plog' = e.pl /\ secs' = e.a.secs
+       /\ term' = ApplyOps(term, e.a.ops)
+       /\ last' = Event(op, i, ls, n, e.a.ops)
   /\ UNCHANGED <<ansi, pre>>
 
 Create ==
